@@ -27,6 +27,10 @@ func (m *Module) valPath(v ssa.Value, depth int) string {
 	case *ssa.Parameter:
 		return x.Name()
 	case *ssa.FreeVar:
+		// a free variable is the address of the captured variable; "^name" names the variable's value
+		if _, isPtr := x.Type().Underlying().(*types.Pointer); isPtr {
+			return "&^" + x.Name()
+		}
 		return "^" + x.Name()
 	case *ssa.Global:
 		return "&global:" + x.Name()
@@ -75,6 +79,8 @@ func (m *Module) addrPath(a ssa.Value, depth int) string {
 		return "local:" + x.Name()
 	case *ssa.Global:
 		return "global:" + x.Name()
+	case *ssa.FreeVar:
+		return "^" + x.Name()
 	case *ssa.IndexAddr:
 		idx := "?" + x.Index.Name()
 		if c, ok := x.Index.(*ssa.Const); ok && c.Value != nil && c.Value.Kind() == constant.Int {
